@@ -454,6 +454,8 @@ package scipipe
 //@ func (*Task).Execute(t)
 //@   props C01 C02 C03 C05 C06 C09
 //@   requires wf: wfTask(t)
+//@   onspawn modifies execSpawned
+//@   onspawn ensures counted: execSpawned == old(execSpawned) + 1
 //@   modifies *
 //@   effects no-inplace-create[C01]: noAuditAlias(t) ==> forall p string :: effCreated[p] && !old(effCreated)[p] ==> !isFinal(t, p)
 //@   effects rename-only-from-temp-after-success[C01,C09]: forall a string, b string :: newRename(a, b) && isFinal(t, b) ==> hasPrefix(a, tmpDirOf(t)) && cmdSucceeded(t) && old(!anyOutExists(t))
@@ -1086,7 +1088,7 @@ package scipipe
 //@   props C04 C08
 //@   requires wf: wfOutPort(pt)
 //@   requires valid: validIP(ip)
-//@   modifies chan, outN, outAt
+//@   modifies chansend, outN, outAt
 //@   ghost set outAt = update(outAt, pt, update(outAt[pt], outN[pt], ip))
 //@   ghost set outN = update(outN, pt, outN[pt] + 1)
 //@   ensures each-remote-exactly-once[C04]: forall r string :: r in pt.RemotePorts ==> chanSentN(pt.RemotePorts[r].Chan) == old(chanSentN(pt.RemotePorts[r].Chan)) + 1 && chanSentAt(pt.RemotePorts[r].Chan, old(chanSentN(pt.RemotePorts[r].Chan))) == ip
@@ -1366,6 +1368,9 @@ package scipipe
 //@   requires wf: wfProcess(p)
 //@   modifies fresh
 //@   atmakechan owner: taskChanOwner($ch) == p
+//@   modifies curTasks
+//@   ghost set curTasks = update(curTasks, p, ch)
+//@   ensures registered: curTasks == update(old(curTasks), p, ch)
 //@   ensures fresh-channel: ch != nil && fresh(ch) && chanCap(ch) == 0 && taskChanOwner(ch) == p && chanRecvN(ch) == 0
 
 //@ define noJoin(p *Process) bool = forall k string :: !joinPort(p.PortInfo, k)
@@ -1390,3 +1395,37 @@ package scipipe
 
 // at exit: every port delivered n items to tasks; the round that found a port closed read each port at most once more
 //@ define portsAdvancedAtExit(p *Process, n int) bool = n >= 0 && (forall i string :: i in p.inPorts ==> chanRecvN(p.inPorts[i].Chan) >= old(chanRecvN(p.inPorts[i].Chan)) + n && chanRecvN(p.inPorts[i].Chan) <= old(chanRecvN(p.inPorts[i].Chan)) + n + 1) && (forall i string :: i in p.inParamPorts ==> chanRecvN(p.inParamPorts[i].Chan) >= old(chanRecvN(p.inParamPorts[i].Chan)) + n && chanRecvN(p.inParamPorts[i].Chan) <= old(chanRecvN(p.inParamPorts[i].Chan)) + n + 1)
+
+// ---------------------------------------------------------------------------
+// process.go: the scheduling loop (C08 order, C04 forward exactly once, C05 exit only when all is done,
+//             C07 oversize rejected, C09 forward only after Done, C17 FIFO lifecycle)
+// ---------------------------------------------------------------------------
+
+//@ ghost var curTasks arr[ref]ref
+//@ ghost var execSpawned int
+//@ ghost var effShell set[string]
+
+//@ func (taskQueue).NextTaskDone(tq) (res)
+//@   props C08
+//@   ensures only-the-oldest[C08]: (len(tq) > 0 ==> res == tq[0].Done) && (len(tq) == 0 ==> res == nil)
+
+//@ func (*Process).Out(p, portName) (res)
+//@   props C04
+//@   ensures named: portName != "" ==> portName in p.outPorts && res == p.outPorts[portName]
+
+//@ func (*FileIP).FifoFileExists(ip) (res)
+//@   props C03 C17
+//@   modifies locked
+//@   ensures def: res <==> statOK(fsEpoch, ip.path + ".fifo")
+
+//@ extern (*os/exec.Cmd).Output(c) (out, err)
+//@   modifies effShell, fsEpoch
+//@   ensures ran: effShell == setAdd(old(effShell), cmdArg(c, 1))
+
+//@ func (*FileIP).CreateFifo(ip)
+//@   props C17
+//@   modifies effMkdir, effShell, fsEpoch, locked
+//@   ensures fifo-exists-or-made[C17]: effShell["mkfifo " + ip.path + ".fifo"] || old(effShell)["mkfifo " + ip.path + ".fifo"] || (exists e int :: statOK(e, ip.path + ".fifo"))
+//@   ensures no-regular-file[C17]: effCreated == old(effCreated) && effRenamed == old(effRenamed)
+
+// The Go statement `go t.Execute()`: one more task execution has been started.
